@@ -61,9 +61,10 @@ DELETE_PARTS = [
     ("table", '(match s.table { Some(t) => seq![lit("FROM "), Ev::TRef(*t)], None => Seq::<Ev>::empty() })', '(match s.table { Some(t) => pre.push(lit("FROM ")).push(Ev::TRef(*t)), None => pre })'),
     ("output", "seq![Ev::Output(s.returning)]", "pre.push(Ev::Output(s.returning))"),
     ("where", 'seq![Ev::Cond("WHERE"@, s.r#where)]', 'pre.push(Ev::Cond("WHERE"@, s.r#where))'),
+    # RETURNING precedes ORDER BY / LIMIT: SQLite's delete-stmt-limited (MySQL writes no RETURNING, Postgres has no ORDER BY / LIMIT here)
+    ("returning", "seq![Ev::Returning(s.returning)]", "pre.push(Ev::Returning(s.returning))"),
     ("order", "seq![Ev::DelOrderBy]", "pre.push(Ev::DelOrderBy)"),
     ("limit", "seq![Ev::DelLimit]", "pre.push(Ev::DelLimit)"),
-    ("returning", "seq![Ev::Returning(s.returning)]", "pre.push(Ev::Returning(s.returning))"),
 ]
 # UPDATE: MySQL `UPDATE t [JOIN ..] SET ..  [WHERE] [ORDER BY] [LIMIT]`; Postgres / SQLite `UPDATE t SET .. [FROM ..] [WHERE] [RETURNING]`.
 # The dialect-only pieces are hooks (UpdJoin: MySQL; UpdFrom / Returning: Postgres, SQLite); the default renderer fixes their order.
@@ -77,9 +78,10 @@ UPDATE_PARTS = [
     ("from", "seq![Ev::UpdFrom]", "pre.push(Ev::UpdFrom)"),
     ("output", "seq![Ev::Output(s.returning)]", "pre.push(Ev::Output(s.returning))"),
     ("where", "seq![Ev::UpdCond]", "pre.push(Ev::UpdCond)"),
+    # RETURNING precedes ORDER BY / LIMIT: SQLite's update-stmt-limited
+    ("returning", "seq![Ev::Returning(s.returning)]", "pre.push(Ev::Returning(s.returning))"),
     ("order", "seq![Ev::UpdOrderBy]", "pre.push(Ev::UpdOrderBy)"),
     ("limit", "seq![Ev::UpdLimit]", "pre.push(Ev::UpdLimit)"),
-    ("returning", "seq![Ev::Returning(s.returning)]", "pre.push(Ev::Returning(s.returning))"),
 ]
 
 
@@ -345,11 +347,11 @@ def build(u, variant=None):
              rules=[r_dynw, r_fmt],
              spec="ensures final(sql).tr() == old(sql).tr() + delete_events(*delete),",
              proofs=anchors("delete", "delete", DELETE_PARTS, ['before#1:vfmt_lit(sql, "DELETE ")', "before#1:if let Some(table) = &delete.table", "before#1:self.prepare_output", "before#1:self.prepare_condition",
-                                                               "before#1:self.prepare_delete_order_by", "before#1:self.prepare_delete_limit", "before#1:self.prepare_returning"]))
+                                                               "before#1:self.prepare_returning", "before#1:self.prepare_delete_order_by", "before#1:self.prepare_delete_limit"]))
         # ---- UPDATE ------------------------------------------------------------------------------------------------------------
         upd = anchors("update", "update", UPDATE_PARTS, ['before#1:vfmt_lit(sql, "UPDATE ")', "before#1:if let Some(table) = &update.table", "before#1:self.prepare_update_join", 'before#1:vfmt_lit(sql, " SET ")',
                                                           "before#1:let mut first = true;", "before#1:self.prepare_update_from", "before#1:self.prepare_output", "before#1:self.prepare_update_condition",
-                                                          "before#1:self.prepare_update_order_by", "before#1:self.prepare_update_limit", "before#1:self.prepare_returning"])
+                                                          "before#1:self.prepare_returning", "before#1:self.prepare_update_order_by", "before#1:self.prepare_update_limit"])
         upd["before#1:let mut first = true;"] += "\n" + "let ghost tv = sql.tr();\nproof { lemma_l_updvalues_empty(update.values@); assert(tv + Seq::<Ev>::empty() =~= tv); }"
         upd["loop1-end"] = "proof { lemma_l_updvalues_step(update.values@, it1.index@ as int); }"
         upd["before#1:self.prepare_update_from"] = "proof { lemma_l_updvalues_empty(update.values@); }\n" + upd["before#1:self.prepare_update_from"]
